@@ -116,6 +116,16 @@ Definition full_body_ok (routes : list rule) (inputs : list (bytes * list (bytes
                                 | Some bs => negb (reads_payload bs) || r_full_body r
                                 | None => false end
                     | None => true end) routes.
+(* the other direction: an operation that takes its body as a stream (take_stream_body) is routed with the body left as it arrives -
+   buffering it first would put extract_full_body, with its length comparison against the declared Content-Length, between the route and
+   the backend, and a signed streaming upload (whose decoded stream replaces the body) could no longer reach its operation *)
+Definition reads_stream (bs : list (bytes * iloc)) : bool := existsb (fun p => match snd p with ILStream => true | _ => false end) bs.
+Definition streams_not_buffered (routes : list rule) (inputs : list (bytes * list (bytes * iloc))) : bool :=
+  forallb (fun r => match r_op r with
+                    | Some o => match find_op o inputs with
+                                | Some bs => negb (reads_stream bs && negb (reads_payload bs)) || negb (r_full_body r)
+                                | None => false end
+                    | None => true end) routes.
 Definition path_kinds_ok (routes : list rule) (inputs : list (bytes * list (bytes * iloc))) : bool :=
   forallb (fun r => match r_op r with
                     | Some o => match find_op o inputs with
